@@ -57,7 +57,9 @@ def direct_judge(o, flags):
 
 def strace_flags(ctx, binary, cfg):
     """Runs the child under strace and returns the flags argument(s) the kernel saw for SECCOMP_SET_MODE_FILTER."""
-    out = ctx.path("strace.%d.txt" % cfg["flags"])
+    out = ctx.path("strace.%d%s.txt" % (cfg["flags"], ".jail" if cfg.get("jail") else ""))
+    if cfg.get("jail"):
+        cfg = dict(cfg, jail=os.path.dirname(ctx.path("jail_%d" % cfg["flags"], "x")))
     try:
         p = subprocess.run(["strace", "-f", "-X", "raw", "-e", "trace=seccomp", "-o", out, binary], input=json.dumps(cfg), capture_output=True, text=True, timeout=60,
                            env={"PATH": "/usr/bin:/bin", "GODEBUG": "asyncpreemptoff=1"})
@@ -107,8 +109,10 @@ def check(ctx, replay=None):
 
     # 2. the flag word reaches the kernel unmodified (hook H2 capture + independent strace capture)
     patterns = [0, 1, 2, 3] + ([1 << 15, 0x8001, 0xFFFFFFFF, 4, 1 << 5, 0x12345678 & ~0x8] if th else [1 << 15, 0x8003, 0xFFFFFFF7])
-    for fl in patterns:
+    for fl, jail in [(f, False) for f in patterns] + [(1, True), (3, True), (0x8001, True)]:
         cfg = {"n": 2, "flags": fl, "seed": ctx.seed, "spawns": 1}
+        if jail:
+            cfg["jail"] = True      # (a process that has changed its root to an empty directory: no /proc)
         r, err = strace_flags(ctx, binary, cfg)
         if r is None:
             ctx.skip(err)
@@ -135,6 +139,9 @@ def check(ctx, replay=None):
     # whatever the library does about that, a nil result has to mean what the statement says
     work += [{"n": n, "flags": fl, "seed": ctx.seed * 11 + n, "spawns": 2, "unprivileged": up, "no_nnp": nn}
              for n in (2, 16) for fl in (1, 3, 0) for up, nn in ((True, True), (True, False), (False, True))]
+    # a process without a file system (root changed to an empty directory: no /proc): thread-sync is the kernel's business, what the
+    # process can read about itself is not an input
+    work += [{"n": n, "flags": fl, "seed": ctx.seed * 17 + n, "spawns": 2, "jail": True} for n in (1, 2, 8, 32) for fl in (1, 3, 0, 2)]
     # another policy content (default action log, a second group): the flags mean the same whatever the policy says
     work += [{"n": n, "flags": fl, "seed": ctx.seed * 13 + n, "spawns": 2, "policy_default": "log"} for n in (2, 8, 32) for fl in (1, 3, 0, 2)]
     # an earlier load of ANOTHER policy, with or without thread-sync: whether the recorded load reaches the other threads depends on its own flags only
@@ -227,6 +234,23 @@ def check(ctx, replay=None):
 
 def run_cfg(binary, cfg):
     kw = dict(user=65534, group=65534, extra_groups=[]) if cfg.get("unprivileged") else {}
+    jail = None
+    if cfg.get("jail"):
+        # the recorder changes its root to this empty directory before anything else (replays make a new one)
+        import tempfile
+        jail = tempfile.mkdtemp(prefix="verif-jail-")
+        cfg = dict(cfg, jail=jail)
+    try:
+        return _run_cfg(binary, cfg, kw)
+    finally:
+        if jail:
+            try:
+                os.rmdir(jail)
+            except OSError:
+                pass
+
+
+def _run_cfg(binary, cfg, kw):
     try:
         p = subprocess.run([binary], input=json.dumps(cfg), capture_output=True, text=True, timeout=60, env={"PATH": "/usr/bin:/bin"}, cwd="/", **kw)
     except subprocess.TimeoutExpired:
